@@ -308,6 +308,19 @@ func runC13(c *Ctx) {
 			// the same records without local type A decode as the Contract says: A's presence changed the others
 			return !indepBad[indep[m.Call.ID]]
 		}
+		// records lost, misrouted or refused on a stream the Contract accepts: whatever the cause, a
+		// record was not interpreted with the definition of the local type its header addresses
+		// (value disagreements are left to the control comparison below)
+		if m.Call.Note == "slot reuse" || m.Call.Note == "control" {
+			switch str(m.Rec["what"]) {
+			case "missing message", "slot count", "message type":
+				return m.Call.Final == "accept"
+			case "verdict":
+				if str(m.Rec["expected"]) == "accept" {
+					return true
+				}
+			}
+		}
 		if m.Call.Note != "slot reuse" {
 			return false
 		}
